@@ -25,6 +25,9 @@ def rules(chk, db):
     # a malformed value inside an entry must fail in the value's own decoder: the frame would otherwise swallow the damage as padding
     from .. import encrules
     encrules.read_rules(chk, db, want=('GRD',))
+    # the hash that is compared is the full 64-bit value that was decoded (likewise ids and counts)
+    chk.rule('NR', 'no narrowing of a decoded hash / id / size / count in the table encoder', minimum=3)
+    encrules.narrowing(chk, db, 'NR', {'ReadPayload', 'Read', 'WritePayload', 'Write', 'Size'})
 
 
 def run(chk, db):
